@@ -199,6 +199,24 @@ def run_shard(spec):
                 sh.violation("apache-vector-differs", "%s -> %s, Apache table %s" % (text, got, want), {"text": text})
             else:
                 sh.count("apache_fingerprints")
+    if spec["shard"] in (1, 2):
+        # texts around sizes an implementation may cut its work at (64 Ki characters / bytes)
+        for n in ((65535, 65536, 65537) if spec["shard"] == 1 else (131071, 131073, 200001)):
+            for unit in ("a", "é", '{"x":1}'):
+                text = (unit * (n // len(unit) + 1))[:n]
+                sh.count("texts_over_64k")
+                if not sh.run_case(check_text, sh, fa_fp, algos, text, seen_idx, rng, False):
+                    break
+    if spec["shard"] == 3:
+        # a text that cannot be encoded (lone surrogate) leaves every algorithm usable
+        for a in ["CRC-64-AVRO"] + list(algos):
+            for _ in range(2):
+                # (such a text has no UTF-8 bytes: what the call does with it is not judged, only
+                # what it leaves behind)
+                st, got = guard(fa_fp, "bad \ud800 text", a)
+            sh.count("unencodable_texts_tried")
+        sh.run_case(check_text, sh, fa_fp, algos, "after the failures", seen_idx, rng, True)
+        sh.run_case(check_text, sh, fa_fp, algos, "", seen_idx, rng, True)
     i = 0
     while i < spec["n"] and not sh.out_of_time():
         i += 1
